@@ -486,6 +486,26 @@ func c20Run(c *fw.Ctx, i int) {
 			}
 		})
 	}
+	// an RTSP relay pull, on a name of its own, towards an origin that accepts the TCP connection and
+	// never answers: the attempt runs into its pull timeout (dispose from the timeout path while the
+	// connect goroutine still owns the session), is stopped or kicked meanwhile, and is started again
+	silent, _ := ref.NewRtmpStub(func(n int) ref.StubBehaviour { return ref.StubBehaviour{Hang: true} })
+	if silent != nil {
+		defer silent.Close()
+		actor("rtsp-pull-timeout", func(rr *rand.Rand) {
+			if atomic.LoadInt32(&disposed) == 1 {
+				return
+			}
+			b, _ := json.Marshal(map[string]interface{}{"url": "rtsp://" + silent.Addr + "/live/rp", "stream_name": "rp", "pull_retry_num": rr.Intn(2), "auto_stop_pull_after_no_out_ms": -1,
+				"pull_timeout_ms": 50 + rr.Intn(300), "rtsp_mode": rr.Intn(2)})
+			srv.HttpPostJson(s.ApiAddr(), "/api/ctrl/start_relay_pull", string(b), 5*time.Second)
+			st.inc("api_start_rtsp_pull_silent_origin")
+			time.Sleep(time.Duration(rr.Intn(500)) * time.Millisecond)
+			if rr.Intn(2) == 0 {
+				srv.HttpGet(s.ApiAddr(), "/api/ctrl/stop_relay_pull?stream_name=rp", 5*time.Second)
+			}
+		})
+	}
 	// ---- API
 	for k := 0; k < 4; k++ {
 		actor(fmt.Sprintf("api-%d", k), func(rr *rand.Rand) {
@@ -686,7 +706,7 @@ func init() {
 		Batches:            func(string) int { return 16 },
 		CaseTimeout:        func(tier string) time.Duration { return 3 * time.Minute },
 		TimeoutIsViolation: true,
-		Rule: "worker built with -race (checkptr on); one lal server per process with every output enabled (HLS with sub-session hash key, periodic group debug log every second, FLV/TS recording, RTSP, WS-RTSP, relay push to a stub target that refuses every third connection and to one that completes the handshake and then never reads (push write timeout 1 s), API); GOMAXPROCS ∈ {1,2,4,16}; liveness sweep every 2–4 s. For 12 s (thorough 40 s) concurrent actors churn on three stream names: 3 RTMP publishers, one more with ≈10 MB per session on a name of its own (fills the buffers towards the push target that never reads), RTSP publishers over TCP and UDP (the UDP one sends every fifth packet also to the other track's port; one in four sends SETUP requests naming no track of its SDP and goes away), a customize publisher, start_rtp_pub + PS over UDP/TCP (incl. a second TCP connection), 4 subscriber actors (RTMP, HTTP-FLV, WS-FLV, HTTP-TS, RTSP TCP/UDP, HLS playlist+segments, consumers that never read), 3 HLS pollers and a blacklist writer with 1 s entries (every /hls/ request consults and expires the ip blacklist), a relay pull on a name of its own that attaches and is then kicked or stopped, a notification handler that calls the stat API from inside OnHlsMakeTs, 4 API actors (stat group / all_group / lal_info, kick of listed pub/sub/pull ids, start/stop_relay_pull against an origin that refuses / closes / serves, add_ip_blacklist, web UI); Dispose at a seeded instant 0.2–1.7 s before the actors stop. Oracles: every `WARNING: DATA RACE` block in the child's log whose accesses touch lal or naza frames is a violation (signature = unordered pair of innermost lal/naza functions); `fatal error: concurrent map…`, `send on closed channel`, `all goroutines are asleep` are crashes; ≥3 consecutive API calls timing out (5 s each) while the server runs, an actor still inside a call into lal 45 s after the end of the run, Dispose not returning within 20 s, or a case exceeding its watchdog are deadlock violations with the goroutine dump; so is a goroutine that, after Dispose returned and all peers are gone, waits for a lal mutex in two dumps 2.5 s apart (a teardown that never completes). cell = GOMAXPROCS. In addition (quick 16, thorough 256 cases, each in a fresh child, GOMAXPROCS 4 or 16) the same race build runs seeded cases borrowed from the scenario lists of C03, C16, C17, C01, C15, C02, C14, C06 and C07 - precisely scheduled histories (relay pull overtaken by a publisher, kicks between handshake steps, consumers stalled past their queue, inputs ending at chosen frames, re-publishing) that random churn meets only by luck; from these only race reports and fatal errors are judged (their behavioural oracles belong to their own checks and are only counted: borrowed_oracle_alarms_not_judged). cell = borrowed/<property>.",
+		Rule: "worker built with -race (checkptr on); one lal server per process with every output enabled (HLS with sub-session hash key, periodic group debug log every second, FLV/TS recording, RTSP, WS-RTSP, relay push to a stub target that refuses every third connection and to one that completes the handshake and then never reads (push write timeout 1 s), API); GOMAXPROCS ∈ {1,2,4,16}; liveness sweep every 2–4 s. For 12 s (thorough 40 s) concurrent actors churn on three stream names: 3 RTMP publishers, one more with ≈10 MB per session on a name of its own (fills the buffers towards the push target that never reads), RTSP publishers over TCP and UDP (the UDP one sends every fifth packet also to the other track's port; one in four sends SETUP requests naming no track of its SDP and goes away), a customize publisher, start_rtp_pub + PS over UDP/TCP (incl. a second TCP connection), 4 subscriber actors (RTMP, HTTP-FLV, WS-FLV, HTTP-TS, RTSP TCP/UDP, HLS playlist+segments, consumers that never read), 3 HLS pollers and a blacklist writer with 1 s entries (every /hls/ request consults and expires the ip blacklist), a relay pull on a name of its own that attaches and is then kicked or stopped, an RTSP relay pull towards an origin that never answers (pull timeouts of 50–350 ms, stopped meanwhile, started again), a notification handler that calls the stat API from inside OnHlsMakeTs, 4 API actors (stat group / all_group / lal_info, kick of listed pub/sub/pull ids, start/stop_relay_pull against an origin that refuses / closes / serves, add_ip_blacklist, web UI); Dispose at a seeded instant 0.2–1.7 s before the actors stop. Oracles: every `WARNING: DATA RACE` block in the child's log whose accesses touch lal or naza frames is a violation (signature = unordered pair of innermost lal/naza functions); `fatal error: concurrent map…`, `send on closed channel`, `all goroutines are asleep` are crashes; ≥3 consecutive API calls timing out (5 s each) while the server runs, an actor still inside a call into lal 45 s after the end of the run, Dispose not returning within 20 s, or a case exceeding its watchdog are deadlock violations with the goroutine dump; so is a goroutine that, after Dispose returned and all peers are gone, waits for a lal mutex in two dumps 2.5 s apart (a teardown that never completes). cell = GOMAXPROCS. In addition (quick 16, thorough 256 cases, each in a fresh child, GOMAXPROCS 4 or 16) the same race build runs seeded cases borrowed from the scenario lists of C03, C16, C17, C01, C15, C02, C14, C06 and C07 - precisely scheduled histories (relay pull overtaken by a publisher, kicks between handshake steps, consumers stalled past their queue, inputs ending at chosen frames, re-publishing) that random churn meets only by luck; from these only race reports and fatal errors are judged (their behavioural oracles belong to their own checks and are only counted: borrowed_oracle_alarms_not_judged). cell = borrowed/<property>.",
 		Assumptions: []string{"GORACE=halt_on_error=0 exitcode=0 so that one report does not hide the rest", "a race between two harness-only frames is a harness fault, not a finding"},
 		MinCells: 2,
 		Run:      c20Run,
